@@ -25,7 +25,14 @@ def perform(probe):
         warnings.simplefilter("ignore")
         with np.errstate(all="ignore"), contextlib.redirect_stdout(io.StringIO()):
             if r["kind"] in ("param", "member"):
-                kwargs[r["par"]] = val
+                if "[" in r["par"]:
+                    # one element of a list-valued parameter, the others at their documented defaults
+                    name, idx = r["par"][:-1].split("[")
+                    lst = list(kwargs.get(name, getattr(sp.cls, name)))
+                    lst[int(idx)] = val
+                    kwargs[name] = lst
+                else:
+                    kwargs[r["par"]] = val
                 try:
                     sp.cls(*args, **kwargs)
                     ev["outcome"] = "ok"
